@@ -173,8 +173,8 @@ func (c *udpMuxedConn) WriteToAddrPort(buf []byte, rAddr netip.AddrPort) (n int,
 // registerAddress registers addr with the mux the first time this conn
 // writes to it.
 func (c *udpMuxedConn) registerAddress(addr netip.AddrPort) {
+	verifhook.Yield("udpmuxed.registerAddress.entry")
 	if !c.containsAddress(addr) {
-		verifhook.Yield("udpmuxed.registerAddress.beforeAdd")
 		c.addAddress(addr)
 	}
 }
@@ -246,7 +246,6 @@ func (c *udpMuxedConn) addAddress(addr netip.AddrPort) {
 	c.addresses = append(c.addresses, addr)
 	c.mu.Unlock()
 
-	verifhook.Yield("udpmuxed.addAddress.beforeRegister")
 	// Map it on mux
 	c.params.Mux.registerConnForAddress(c, addr)
 }
